@@ -7,6 +7,9 @@ critical section (`AddLock` / `RemoveLock` / `DestroySession` → `Save` → `st
 can hit between any two of those file operations, and between any two manager calls of the
 server-level threads (table first, bookkeeping second, answer last — `server.go`).
 
+A session end (`LockServer.DestroySession`) is bookkeeping first (`destroy`: the whole entry at once, one rewrite), table
+second (`tableDel` per hold) - the other way round from Unlock and the lease callback.
+
 One model step = one file operation or one manager call; a crash point = any reachable state.
 Process-kill model: what has been written stays (page cache survives); no power loss.
 -/
@@ -29,6 +32,7 @@ structure St where
   ended    : List Pair            -- ghost: holds that have left the lock table (keys are never reused)
   booked   : List Pair            -- ghost: holds that have ever been recorded (AddLock runs once per granted key)
   expiring : List Pair            -- ghost: holds whose lease timer has fired (the callback releases them)
+  dying    : List Pair            -- ghost: holds of ended sessions (`DestroySession` took them out of the bookkeeping; its loop releases them)
 deriving DecidableEq, Repr
 
 inductive Act
@@ -41,6 +45,8 @@ inductive Act
   | answerGrant (p : Pair)        -- the Lock/TryLock response leaves the server
   | answerRelease (p : Pair)      -- the Unlock response leaves the server
   | expire (p : Pair)             -- the lease timer of a live hold fires (its callback: tableDel, then bookDel)
+  | destroy (ps : List Pair)      -- D1: `sessionManager.DestroySession` (in-memory part): the session's entry, with its holds `ps`,
+                                  --     leaves the bookkeeping; the loop of `LockServer.DestroySession` then releases them (tableDel)
 deriving DecidableEq, Repr
 
 def step (s : St) : Act → Option St
@@ -63,9 +69,13 @@ def step (s : St) : Act → Option St
     -- … and after `RemoveLock` (+Save) has returned
     if p ∉ s.book ∧ p ∈ s.booked ∧ (p ∈ s.ended ∨ p ∈ s.expiring) ∧ ¬ s.unsaved then some { s with ackRel := p :: s.ackRel } else none
   | .expire p => if p ∈ s.held then some { s with expiring := p :: s.expiring } else none
+  | .destroy ps =>
+    -- needs the session-table mutex; the entry lists holds that are recorded; the file is rewritten even for an empty entry
+    if s.unsaved ∨ ¬ (∀ p ∈ ps, p ∈ s.book) then none
+    else some { s with book := s.book.filter (· ∉ ps), dying := ps ++ s.dying, unsaved := true }
 
 def init : St := { held := [], book := [], file := .table [], unsaved := false, ackGrant := [], ackRel := [], ended := [],
-                   booked := [], expiring := [] }
+                   booked := [], expiring := [], dying := [] }
 
 def run : St → List Act → Option St
   | s, [] => some s
